@@ -184,6 +184,25 @@ def run(chk):
         "boundary leakage enters as the explicit remainder of fp3_full_moment_step_remainder / second_moment_with_leakage",
         "4-point stencil: second-moment recurrence proved for columns away from the switch row; the O(e1) switch-row defect is measured",
     ]
+    # whole program: the damping decrement must follow the number of steps actually used, however it is given
+    import progcommon as P
+    exe, h5 = lib.build_inovesa("plain"), lib.build_h5dump()
+    prng = lib.Rng(chk.seed, "C04/program")
+    pruns = []
+    for _ in range(1 if quick else 4):
+        steps = prng.choice([100, 150, 200])
+        td = prng.choice([2.5, 3.0, 4.0]) / P.sync_freq_default()
+        f, a = P.steps_equivalence(exe, h5, steps, ["-s", str(prng.choice([32, 48])), "-T", "6", "-n", str(steps // 2), "-G", "0",
+                                                    "-d", repr(td), "--InitialDistZoom", repr(prng.choice([0.6, 1.5])),
+                                                    "--derivation", str(prng.choice([3, 4]))],
+                                    ["/EnergySpread/data", "/BunchLength/data", "/Info/AxisValues_t"], 2e-4)
+        pruns.append(steps)
+        if f:
+            chk.violation("C04 violated: relaxation depends on how the step count is given: " + f,
+                          "# C04: %s\ninovesa %s\n# versus the same command with `-N %d` instead of --StepsPerRevolution\n" % (f, " ".join(a), steps),
+                          tag="program")
+            fails = fails + [(recs[0], f)]
+    chk.cov["program_steps_equivalence_runs"] = pruns
     if san:
         chk.violation("sanitizer/abort in the implementation: " + san[:300],
                       "# harness aborted\n" + san + "\n" + "".join(optexts.values())[:200000], tag="sanitizer")
